@@ -115,13 +115,24 @@ def infeasible_starts(ctx):
     # the optimiser will evaluate first is feasible.
     for i in range(60 if ctx.quick else 600):
         D = rng.choice([1, 2, 2, 3])
-        hb = rng.choice([1.1, 1.07, 1.3, 2.05])
         sgn = rng.choice([2, 3, 4])
         side = rng.choice([1.0, -1.0])
         x0 = np.array([rng.uniform(-0.3, 0.3) for _ in range(D)])
-        x0[0] = side * (hb - rng.choice([0.002, 0.01, 0.03, 0.06]) * hb)
-        w = rng.choice([0.02, 0.05, 0.08, 0.12])
         shape = rng.choice(["slab", "ring"]) if D > 1 else "slab"
+        if i % 10 < 7:
+            # aimed: the hard bound lies past the midpoint between two mesh nodes m*step < hb < (m+1)*step, the start past that midpoint
+            # (it snaps to the outer node and is pulled back to the inner one); the slab contains the start but not the inner node
+            step = 2.0 ** -sgn
+            m = int(round(rng.choice([1.0, 1.25, 1.5, 2.0]) / step))
+            hb = (m + rng.uniform(0.6, 0.95)) * step
+            lo = (m + 0.5) * step
+            x0[0] = side * rng.uniform(lo + 0.1 * (hb - lo), hb - 0.1 * (hb - lo) - 2.5e-3 * hb)
+            w = float(rng.uniform(float(hb - abs(x0[0])) * 1.05 + 1e-4, (hb - m * step) * 0.95))
+            shape = "slab"
+        else:
+            hb = rng.choice([1.1, 1.07, 1.3, 2.05])
+            x0[0] = side * (hb - rng.choice([0.002, 0.01, 0.03, 0.06]) * hb)
+            w = rng.choice([0.02, 0.05, 0.08, 0.12])
         if shape == "slab":        # feasible: within w of the bound on the start's side
             raw = (lambda sd, hb_, w_: (lambda X: (hb_ - w_) - sd * np.atleast_2d(X)[:, 0]))(side, hb, w)
         else:                      # feasible: a ring through the start
